@@ -13,6 +13,7 @@ import CogentModel.Proofs.PhyloHistory
 import CogentModel.Proofs.PhyloMidpoint
 import CogentModel.Proofs.PhyloMidSearch
 import CogentModel.Proofs.PhyloNewickStr
+import CogentModel.Proofs.PhyloNames
 /-! # C09 — property theorems (tree transformations preserve tips, topology and path lengths)
 
 `PTree K`, `rerootAt`, `unrooted`, `sorted`, `getSubTree`, … : `Model/PhyloTree.lean`
@@ -506,10 +507,16 @@ quotes doubled, otherwise blanks become underscores); `lex` mirrors the regular-
 `:`; a token equal to a punctuation string *is* that punctuation).  All tied to the real code on
 random strings every run.  `sh` stands for Python's float formatting, `rd` for `float`.
 
-Hypotheses = exactly what the code gets right (`GoodTree`): every node is unnamed or has a
-non-empty printable-ASCII name that
-  * does not begin with a single quote      (known finding C09-newick-leading-quote-name), and
-  * is not a single punctuation character `( ) , : ; [`   (known finding C09-newick-punctuation-name).
+Hypotheses = exactly what the code gets right (`GoodTree`): every node is unnamed or its name — ANY
+string, any Unicode characters — satisfies the decidable predicate `roundTrips` of the model:
+  * no newline in it (ends an unquoted label, an error inside a quoted one);
+  * it does not begin with a single quote     (known finding C09-newick-leading-quote-name);
+  * it is not a single punctuation character `( ) , : ; [`   (known finding C09-newick-punctuation-name);
+  * if it is written UNQUOTED (none of ``[]'"(),:;_`` in it) it neither begins nor ends with white space
+    other than the blank (`str.strip()` in the tokeniser; blanks travel as underscores).
+The former hypothesis (non-empty printable ASCII + the two findings) is the special case
+`roundTrips_of_printable`.  Every excluded class really fails (`newick_excluded_names_fail`), and the
+predicate is compared with the real `make_tree(get_newick())` on adversarial names every run.
 JSON (`to_json` writes names unescaped — known finding C09-json-unescaped-names) is not modelled. -/
 
 /-- the tokeniser reads the written string back as the tree's token list (names unescaped) -/
@@ -537,8 +544,8 @@ example : GoodShow (fun (_ : Unit) => ['1', '.', '5']) := by
   intro y hy
   simp only [List.mem_cons, List.mem_nil_iff, or_false] at hy
   rcases hy with rfl | rfl | rfl <;> exact ⟨⟨by decide, by decide, by decide, by decide, by decide⟩, by decide, by decide⟩
-example : GoodName "it's (a_b), c:d".toList := by
-  exact ⟨by decide, by decide, by decide, by decide⟩
+example : GoodName "it's (a_b), c:d".toList := by decide
+example : GoodName "a\tb \"\"K12\"\" é中  ".toList := by decide
 example : String.ofList (newickStrW (fun (_ : Unit) => ['1', '.', '5'])
       (.node "" none [.node "it's (a_b)" (some ()) [], .node "x y" none [.node "c" (some ()) [], .node "" none []]]))
     = "('it''s (a_b)':1.5,(c:1.5,)x_y);" := by decide +kernel
@@ -546,5 +553,65 @@ example : parseString (fun s => if s = ['1', '.', '5'] then some () else none)
       "('it''s (a_b)':1.5,(c:1.5,)x_y);".toList
     = some (.node "" none [.node "it's (a_b)" (some ()) [], .node "x y" none [.node "c" (some ()) [], .node "" none []]]) := by
   rfl
+
+
+/-! ### 6. names (round 3 feedback): arbitrary strings through the newick round trip, generated names
+
+`roundTrips` (`Model/PhyloNewickStr.lean`) is the exact class of names the writer / tokeniser / parser
+triple hands back unchanged; `nameRoundTrip n` runs the modelled `parse_string(get_newick())` on a
+two-tip tree whose first tip is called `n` and returns the name read back.
+`assignNames` / `makeTreeNames` (`Model/PhyloNames.lean`) mirror `TreeBuilder._unique_name` (the
+recursive re-check of the suffixed candidate included) and `make_tree`'s late renaming of an unnamed root. -/
+
+/-- every name in the class — any characters at all — is read back unchanged -/
+theorem newick_name_roundtrip (n : List Char) (h : roundTrips n = true) :
+    nameRoundTrip n = some (String.ofList n) :=
+  nameRoundTrip_of_roundTrips n h
+
+/-- the printable-ASCII names of the earlier statement are in the class -/
+theorem newick_printable_names_roundtrip (n : List Char) (hne : n ≠ []) (hhead : n.head? ≠ some '\'')
+    (hpr : ∀ x ∈ n, Printable x) (hp : notPunLab n = true) : roundTrips n = true :=
+  roundTrips_of_printable n hne hhead hpr hp
+
+/-- each excluded class fails in the modelled code (a leading quote; wrapped in quotes; a single
+punctuation character; a newline; an unquoted name with a leading tab / trailing carriage return /
+leading no-break space): the predicate excludes nothing it could keep on these witnesses -/
+theorem newick_excluded_names_fail :
+    (roundTrips "'ab".toList = false ∧ nameRoundTrip "'ab".toList = none) ∧
+    (roundTrips "'ab'".toList = false ∧ nameRoundTrip "'ab'".toList = some "ab") ∧
+    (roundTrips "(".toList = false ∧ nameRoundTrip "(".toList = none) ∧
+    (roundTrips ",".toList = false ∧ nameRoundTrip ",".toList = none) ∧
+    (roundTrips "[".toList = false ∧ nameRoundTrip "[".toList = none) ∧
+    (roundTrips "a\nb".toList = false ∧ nameRoundTrip "a\nb".toList = none) ∧
+    (roundTrips "\tab".toList = false ∧ nameRoundTrip "\tab".toList = some "ab") ∧
+    (roundTrips "ab\r".toList = false ∧ nameRoundTrip "ab\r".toList = some "ab") ∧
+    (roundTrips [Char.ofNat 0xA0, 'a'] = false ∧ nameRoundTrip [Char.ofNat 0xA0, 'a'] = some "a") := by
+  decide +kernel
+
+-- … while their neighbours are fine: `]`, a leading blank, a tab inside, a quoted leading tab
+example : roundTrips "]".toList = true ∧ roundTrips " ab ".toList = true ∧ roundTrips "a\tb".toList = true ∧
+    roundTrips "\ta,b".toList = true ∧ roundTrips "a''b\"\"c".toList = true := by decide
+example : nameRoundTrip "a''b\"\"c".toList = some "a''b\"\"c" := by decide +kernel
+
+/-- `TreeBuilder._unique_name`: whatever the labels (repeated labels, labels that look like generated
+names, missing labels), the names handed out by one builder are pairwise distinct -/
+theorem unique_names_nodup (labels : List (Option String)) : (assignNames labels).Nodup :=
+  assignNames_nodup labels
+
+/-- `make_tree`: pairwise distinct node names, provided the late renaming of an unnamed root to "root"
+does not meet a node that is already called "root" -/
+theorem make_tree_names_nodup (labels : List (Option String))
+    (h : labels.getLast? = some none → "root" ∉ (assignNames labels).dropLast) :
+    (makeTreeNames labels).Nodup :=
+  makeTreeNames_nodup labels h
+
+/-- … and that proviso is needed: a tip labelled `root` below an unnamed root gives two nodes called
+"root" (known finding C09-generated-name-collision) -/
+theorem make_tree_names_root_collision :
+    makeTreeNames [some "root", some "b", none] = ["root", "b", "root"] := by
+  decide +kernel
+
+example : assignNames [some "x", some "x.2", some "x", none, some "edge.0", none, some "x"] =
+    ["x", "x.2", "x.2.2", "edge.0", "edge.0.2", "edge.1", "x.3"] := by decide +kernel
 
 end CogentModel.C09
